@@ -327,15 +327,16 @@ def g6_subview_extraction(prog):
             once('not-analysable', None, 'path enumeration cut off')
             continue
         S = pathsem.strip_refs
-        pv = ('p', body.arg_local('views') or 1, 'views')
-        pi = ('p', body.arg_local('indices') or 2, 'indices')
-        pid = body.arg_local('identifier')
+        # the trait fixes the parameter positions (views, indices, identifier); names are the impl's own
+        pv = ('p', 1, body.local_name(1) or '')
+        pi = ('p', 2, body.local_name(2) or '')
+        pid = 3
         v0 = ('f', pv, 0, 'tuple')
         rem = ('agg', 'tuple', None, 0, (('f', pv, 1, 'tuple'), ('f', pi, 1, 'tuple')))
 
         def is_bit(a_):
             return isinstance(a_, tuple) and a_[0] == 'call' and a_[1].endswith('::get_unchecked') and 'IdentifierRef' in a_[1] and len(a_[2]) == 2 \
-                and S(a_[2][0]) == ('p', pid, 'identifier') and S(a_[2][1]) == ('f', pi, 0, 'tuple')
+                and S(a_[2][0]) == ('p', pid, body.local_name(pid) or '') and S(a_[2][1]) == ('f', pi, 0, 'tuple')
         for p in rets:
             inits = p.calls(lambda e: e['name'] == 'assume_init')
             unwraps = [e for e in p.calls(lambda e: e['name'] in ('unwrap_unchecked', 'unwrap', 'expect')) if S(e['args'][0]) == v0]
